@@ -254,7 +254,13 @@ class Solver(object):
                         ft = json.load(f)
                 except (OSError, ValueError):
                     ft = None
-                if ft and ft.get('head') in (head, '*'):
+                if ft and ft.get('head') in (head, '*') and \
+                        ft.get('skip', 0) > 0:
+                    # the fault is for a later command with this head
+                    ft['skip'] -= 1
+                    with open(a.fault, 'w') as f:
+                        json.dump(ft, f)
+                elif ft and ft.get('head') in (head, '*'):
                     os.unlink(a.fault)
                     self.log.write(ev='fault', head=head)
                     return self.reply(ft.get('reply', 'unsupported'), text,
